@@ -276,6 +276,13 @@ pub fn check_seq_io(ops: &[Op], srcs: &[Src], src_bytes: &[Vec<u8>], seed: u64, 
 }
 
 fn replay(case: &Value, st: &mut Stats, seed: u64) {
+    if let Some(c) = case.get("sink_fault_after_copy") {
+        let srcs = sources(seed);
+        let sb: Vec<Vec<u8>> = srcs.iter().map(|s| s.bytes.clone()).collect();
+        let si = c["source"].as_u64().unwrap_or(0) as usize;
+        check_copy_then_sink_fault(&srcs[si], &sb, si, c["entry"].as_u64().unwrap_or(0) as usize, c["tail"].as_u64().unwrap_or(0) as usize, seed, st, 0);
+        return;
+    }
     if let Some(c) = case.get("failed_copy") {
         let srcs = sources(seed);
         let si = c["source"].as_u64().unwrap_or(0) as usize;
@@ -386,6 +393,18 @@ pub fn run(args: &Args) -> i32 {
         ctx.stats.merge(s);
         ctx.bound("failed_source_reads", json!({"source_entries": picks, "failing_read_index": "0..=10", "handles": ["by_index", "by_index_raw"], "oracle": "no panic; the error is reported; if finish() then succeeds the ordinary entries before and after read back as written"}));
     }
+    // a copy that SUCCEEDED, then one failing sink call somewhere in what follows (the next entry's header or data, the
+    // directory, the end record), the caller carrying on to a finish() that succeeds (or to drop): the copy stays what it was
+    {
+        let picks: Vec<(usize, usize)> = vec![(0, 0), (0, 13), (0, 29), (1, 0), (3, 0)];
+        let (picks_r, srcs_r2, sb) = (&picks, &srcs, &sb);
+        let s = par_for((picks.len() * 4) as u64, 1, |t, st| {
+            let (si, idx) = picks_r[t as usize / 4];
+            check_copy_then_sink_fault(&srcs_r2[si], sb, si, idx, (t % 4) as usize, seed, st, (7 << 40) + t);
+        });
+        ctx.stats.merge(s);
+        ctx.bound("sink_fault_after_a_copy", json!({"source_entries": picks, "tails": TAILS, "fault": "one Err at every sink call index after the copy has returned Ok", "oracle": "no panic; whenever a later finish() returns Ok (or the writer is dropped after a failed finish), the copy is listed and its method, sizes, CRC, stored bytes and content equal the source entry's; the ordinary entry before it reads back as written"}));
+    }
     // sparse sources with more than 4 GiB of real stored bytes: compressed size beyond 32 bits with an uncompressed size that
     // fits, both beyond, and (thorough) a stored one; copied between two ordinary entries
     {
@@ -408,6 +427,102 @@ pub fn run(args: &Args) -> i32 {
     ctx.stats.transitions = ctx.stats.evals;
     ctx.stats.traces = ctx.stats.evals;
     ctx.finish()
+}
+
+pub const TAILS: [&str; 4] = ["file, finish, finish", "finish, finish", "finish, drop", "directory, file, finish, finish"];
+
+/// [file, raw copy, tail] over a sink that fails ONE call; every sink call index is tried, the cases where the fault lands
+/// after the copy returned Ok are judged.
+fn check_copy_then_sink_fault(src: &Src, src_bytes: &[Vec<u8>], si: usize, idx: usize, tail: usize, seed: u64, st: &mut Stats, order: u64) {
+    use crate::sio::inst::{plan, Dev};
+    let normal = content_class(2, seed);
+    let mut calls = vec![Call::StartFile { name: "normal-0".into(), opts: FOpts { perm: Some(0o640), ..FOpts::m(8) } }, Call::Write(normal.clone()), Call::RawCopy { src: si, idx, rename: Some("the-copy".into()), raw_open: false }];
+    let copy_at = 2usize;
+    let file = |n: &str| vec![Call::StartFile { name: n.into(), opts: FOpts { perm: Some(0o600), ..FOpts::m(0) } }, Call::Write(normal.clone())];
+    match tail {
+        0 => {
+            calls.extend(file("normal-2"));
+            calls.extend([Call::Finish, Call::Finish]);
+        }
+        1 => calls.extend([Call::Finish, Call::Finish]),
+        2 => calls.extend([Call::Finish, Call::Drop]),
+        _ => {
+            calls.push(Call::AddDir { name: "dir-2".into(), opts: FOpts::m(0) });
+            calls.extend(file("normal-3"));
+            calls.extend([Call::Finish, Call::Finish]);
+        }
+    }
+    let p0 = plan();
+    let (r0, _) = exec_plan(&calls, src_bytes, p0.clone());
+    let total = p0.borrow().kinds.len() as u64;
+    if !r0[..calls.len() - 1].iter().all(|r| r.is_ok()) {
+        st.viol("machinery/sink-fault-program", format!("the fault-free program fails: {:?}", r0.iter().map(|r| r.show()).collect::<Vec<_>>()), json!({"kind": "sink-fault-after-copy"}), order);
+        return;
+    }
+    let want = &src.obs.entries[idx];
+    for k in 0..total {
+        st.evals += 1;
+        let case = || json!({"sink_fault_after_copy": {"source": si, "entry": idx, "tail": tail, "sink_call": k}});
+        let pk = plan();
+        pk.borrow_mut().record_kinds = false;
+        pk.borrow_mut().devs.insert(k, Dev::Err);
+        let (res, bytes) = exec_plan(&calls, src_bytes, pk);
+        if let Some((c, r)) = calls.iter().zip(&res).find(|(_, r)| r.is_panic()) {
+            st.viol(format!("sink-fault-after-copy/panic/{}/{}", c.opname(), panic_site(&r.show())), format!("source {si} entry {idx}, tail '{}', sink call {k} fails: {} panicked: {}", TAILS[tail], c.opname(), r.show()), case(), order);
+            continue;
+        }
+        if !res[..=copy_at].iter().all(|r| r.is_ok()) {
+            st.class("sink-fault/at-or-before-the-copy");
+            continue;
+        }
+        if res.iter().all(|r| r.is_ok() || matches!(r, Res::Err(e) if e.contains("already closed") || e.contains("gone"))) && res[calls.len() - 2].is_ok() {
+            // (the fault was absorbed or never reached: the first finish() succeeded)
+        }
+        let finished = calls.iter().zip(&res).any(|(c, r)| matches!(c, Call::Finish) && r.is_ok());
+        let dropped_after_failed_finish = matches!(calls.last(), Some(Call::Drop)) && !res[calls.len() - 2].is_ok();
+        if !finished && !dropped_after_failed_finish {
+            st.class("sink-fault/no-finish-succeeded");
+            continue;
+        }
+        let label = format!("source {si} entry {idx} copied (Ok), tail '{}', sink call {k} of {total} failed once, the caller carried on{}", TAILS[tail], if finished { " and a finish() returned Ok" } else { " and dropped the writer" });
+        match observe(&bytes, None, 1 << 22) {
+            Err(e) => {
+                if finished {
+                    st.viol("sink-fault-after-copy/archive-unreadable", format!("{label}: {e:?}"), case(), order);
+                } else {
+                    st.class("sink-fault/dropped:unreadable");
+                }
+            }
+            Ok(o) => {
+                let mut ok = true;
+                match o.entries.iter().find(|e| e.name == "the-copy") {
+                    None => {
+                        ok = false;
+                        st.viol("sink-fault-after-copy/copy-missing", format!("{label}: the copy is not listed"), case(), order);
+                    }
+                    Some(g) => {
+                        if (g.method, g.size, g.csize, g.crc) != (want.method, want.size, want.csize, want.crc) || g.raw != want.raw || g.content != want.content {
+                            ok = false;
+                            st.viol(
+                                "sink-fault-after-copy/copy-changed",
+                                format!("{label}: the copy records method {} size {} compressed {} crc {:#010x} (source: {} {} {} {:#010x}); stored bytes equal: {}; content equal: {}", g.method, g.size, g.csize, g.crc, want.method, want.size, want.csize, want.crc, g.raw == want.raw, g.content == want.content),
+                                case(),
+                                order,
+                            );
+                        }
+                    }
+                }
+                match o.entries.iter().find(|e| e.name == "normal-0") {
+                    Some(g) if g.content.as_ref().ok() == Some(&normal) && g.size == normal.len() as u64 => {}
+                    _ => {
+                        ok = false;
+                        st.viol("sink-fault-after-copy/neighbour-damaged", format!("{label}: the ordinary entry before the copy does not read back as written"), case(), order);
+                    }
+                }
+                st.class(if ok { "sink-fault/copy-intact" } else { "SINK-FAULT-CHANGES-COPY" });
+            }
+        }
+    }
 }
 
 /// A raw copy whose SOURCE reader fails at its k-th read call during the copy, between two ordinary entries; the caller
